@@ -1,8 +1,8 @@
 package main
 
 import (
-	"fmt"
 	"crypto/sha256"
+	"fmt"
 	"math/big"
 	"strings"
 
